@@ -2997,6 +2997,7 @@ class ISLaSolver:
             return self.parse(
                 str(int_model_value),
                 var_type,
+                skip_check=True,
                 silent=True,
             )
         except SyntaxError:
@@ -3054,6 +3055,7 @@ class ISLaSolver:
                 + z3_solver.model()[zeroes_padding_var].as_string()
                 + (str_model_value if int_model_value >= 0 else str(-int_model_value)),
                 var.n_type,
+                skip_check=True,
             )
 
     def extract_model_value_flexible_var(
@@ -3077,9 +3079,13 @@ class ISLaSolver:
         :return: See :meth:`~isla.solver.ISLaSolver.extract_model_value`.
         """
 
+        # This is the value of one variable in a model of some of the constraint's SMT
+        # formulas, not a complete solution: it must not be checked against the
+        # whole constraint (which `parse` does for trees of type `<start>`).
         return self.parse(
             smt_string_val_to_string(model[z3.String(var.name)]),
             var.n_type,
+            skip_check=True,
         )
 
     @staticmethod
